@@ -30,11 +30,14 @@ def oraclize(qf: QlassF, element: Any, name="oracle"):
     """Transform a QlassF qf and an element to an oracle {f(x) = x == element}"""
     argt_name = type_repr(qf.args[0].ttype)
 
-    if qf.name == name:
-        qf.name = f"_{name}"
+    # The wrapped function keeps its name; only the copy handed over as a
+    # definition is renamed when it would clash with the oracle's own name
+    lfun = qf.to_logicfun()
+    fname = f"_{name}" if qf.name == name else qf.name
+    lfun = (fname,) + tuple(lfun[1:])
 
-    fs = f"def {name}(v: {argt_name}) -> bool:\n   return {qf.name}(v) == {element}"
-    oracle = QlassF.from_function(fs, defs=[qf.to_logicfun()])
+    fs = f"def {name}(v: {argt_name}) -> bool:\n   return {fname}(v) == {element}"
+    oracle = QlassF.from_function(fs, defs=[lfun])
 
     if (
         len(oracle.expressions) == 1
